@@ -206,6 +206,7 @@ YOUTUBE_CHANNEL_NAME_BLACKLIST = {
     "reporthistory",
     "results",
     "t",
+    "watch",
 }
 
 YoutubeVideo = namedtuple("YoutubeVideo", ["id", "playlist"])
@@ -241,6 +242,17 @@ def is_youtube_video_id(value):
 
 def is_youtube_channel_id(value):
     return bool(YOUTUBE_CHANNEL_ID_RE.match(value))
+
+
+def channel_from_name(name):
+    # NOTE: the canonical url of a named channel is /<name>: a name this route
+    # cannot express (empty or reserved) would not parse back to the channel
+    name = name.lstrip("@")
+
+    if not name or name in YOUTUBE_CHANNEL_NAME_BLACKLIST:
+        return None
+
+    return YoutubeChannel(id=None, name=name)
 
 
 def parse_youtube_url(url, fix_common_mistakes=True):
@@ -359,9 +371,7 @@ def parse_youtube_url(url, fix_common_mistakes=True):
         if len(splitted_path) < 2:
             return None
 
-        name = splitted_path[1]
-
-        return YoutubeChannel(id=None, name=name.lstrip("@"))
+        return channel_from_name(splitted_path[1])
 
     elif path.startswith("/channel/"):
         splitted_path = pathsplit(path)
@@ -392,12 +402,7 @@ def parse_youtube_url(url, fix_common_mistakes=True):
     else:
         path = path.rstrip("/")
         if path.count("/") == 1:
-            name = path.lstrip("/")
-
-            if name in YOUTUBE_CHANNEL_NAME_BLACKLIST:
-                return
-
-            return YoutubeChannel(id=None, name=name.lstrip("@"))
+            return channel_from_name(path.lstrip("/"))
 
 
 def extract_video_id_from_youtube_url(url):
